@@ -122,6 +122,7 @@ func genInputValue(r *rand.Rand, t gen.T, depth int) ref.Value {
 // ---- directed compositions (single features cannot reach these)
 
 var c01Directed = []string{
+	"a := [1, 2, 3, 4]; d := splice(a, 1, 9223372036854775807); e := splice([5, 6], 2, 9223372036854775807, 7); b := [a, d, e]",
 	// freeze reaches below values that are already immutable at the top
 	"src := immutable({limits: [1, 2], tags: {a: [1]}}); f := freeze(src); t := [is_immutable_array(f.limits), is_immutable_map(f.tags), is_immutable_array(f.tags.a)]; src.limits[0] = 9; q := [f.limits[0], src.limits[0]]",
 	"src := immutable([[1, 2], {k: [3]}]); f := freeze(src); t := [is_immutable_array(f[0]), is_immutable_map(f[1]), is_immutable_array(f[1].k)]; src[0][1] = 7; q := [f[0], src[0]]; f[0][0] = 5",
